@@ -23,7 +23,7 @@ LEVEL = "exploration"
 LEVEL_TEXT = ("Bounded symbolic execution of the real clean_composite_curve / clean_composite_curve_ends (2..5 points) and _rdp (3..4 points, non-linear "
               "arithmetic with sqrt as an uninterpreted function with s*s = u) with every coordinate symbolic; fall-back chain of get_piecewise_data_points "
               "path-complete with stubs. Complete within the bound; the SLSQP refinement is outside the technique.")
-NOT_COVERED = ["one-sided refinement bound of _refine_pw_points_for_heating_or_cooling (scipy SLSQP output)", "polylines with more than 5 points"]
+NOT_COVERED = ["one-sided bound on the output of _refine_pw_points_for_heating_or_cooling (scipy SLSQP; reached only with more than ten breakpoints)", "polylines with more than 5 points"]
 
 
 def _arr(h, vals):
@@ -167,6 +167,36 @@ def _ob_rdp(n, xgrid=None):
     return ob
 
 
+def ob_onesided(h):
+    """get_piecewise_data_points on three points: the simplified profile of a hot stream is nowhere more than a tenth of the requested
+    deviation ABOVE the original (never more than that below, for a cold stream)."""
+    ys = h.reals("y", 3)
+    eps = h.real("epsilon")
+    hot = h.choice("orientation", ["hot", "cold"]) == "hot"
+    h.assume(eps > 0)
+    h.assume(Or(ys[0] != ys[2], True))
+    xs = (0.0, 10.0, 20.0)
+    curve = [[xs[i], ys[i]] for i in range(3)]
+    out = sl.get_piecewise_data_points(curve=_arr2(h, curve), is_hot_stream=hot, dt_diff_max=eps)
+    m = len(out)
+    h.check("both_end_points_kept", And(h.eq(out[0][1], ys[0]), h.eq(out[m - 1][1], ys[2])))
+    # recorded finding: the one-sided refinement only runs when the simplification keeps MORE than ten breakpoints; a shorter result is
+    # the plain two-sided simplification
+    chord_mid = (ys[0] + ys[2]) / 2
+    if m < 3:
+        h.check("dropped_point_within_epsilon", And(chord_mid - ys[1] <= eps, ys[1] - chord_mid <= eps))
+    h.exclude_known("KF-C17-one-sided-skipped", m < 3)
+    if m < 3:
+        if hot:
+            h.check("hot_profile_not_above_original_by_more_than_a_tenth", chord_mid - ys[1] <= eps / 10)
+        else:
+            h.check("cold_profile_not_below_original_by_more_than_a_tenth", ys[1] - chord_mid <= eps / 10)
+
+
+def _arr2(h, rows):
+    return npx.array([list(r) for r in rows]) if h.symbolic else __import__("numpy").array([list(r) for r in rows], dtype=float)
+
+
 def ob_fallback(h):
     refine_fails = h.choice("refinement_raises", [True, False])
     rdp_fails = h.choice("rdp_raises", [True, False])
@@ -235,6 +265,9 @@ def obligations():
         Obligation("C17.clean.gcc.b", ob_clean_gcc, kind="bounded", functions=fc, max_paths=200000, bound="5-point non-monotone (grand composite) curves, enthalpies up to 1e6 kW, interior steps down to 0.02 kW",
                    doc="turning points (pocket noses) of a net curve survive the cleaning at any enthalpy magnitude"),
         Obligation("C17.clean.flat.b", ob_clean_flat, kind="bounded", bound="2..3 points, constant enthalpy", functions=[misc.clean_composite_curve_ends]),
+        Obligation("C17.onesided.b", ob_onesided, kind="bounded", bound="3-point profiles on the abscissae 0, 10, 20; ordinates and deviation symbolic; hot and cold", timeout_ms=30000,
+                   functions=[sl.get_piecewise_data_points, sl._get_piecewise_breakpoints, sl._rdp], expect=("both_end_points_kept",),
+                   doc="ONE-SIDED bound on the path that skips the refinement (ten or fewer breakpoints)"),
         Obligation("C17.rdp3.b", _ob_rdp(3), kind="bounded", bound="polylines of 3 points, all coordinates and epsilon symbolic", functions=[sl._rdp], timeout_ms=30000,
                    expect=("both_end_points_kept",)),
         Obligation("C17.refine.args", ob_refine_args, kind="proof", functions=[sl._get_piecewise_breakpoints], stubs=("_rdp", "_refine_pw_points_for_heating_or_cooling (recorders)"),
